@@ -309,6 +309,8 @@ end
 /-- identifiers are distinct: the trees `TreeStructure` can hold -/
 def WF (t : RTree) : Prop := (ids t).Nodup
 
+instance (t : RTree) : Decidable (WF t) := by unfold WF; infer_instance
+
 mutual
 /-- (parent, child) pairs -/
 def edges : RTree → List (Nat × Nat)
@@ -329,10 +331,27 @@ def Chain (R : Nat → Nat → Prop) : List Nat → Prop
   | [_] => True
   | a :: b :: rest => R a b ∧ Chain R (b :: rest)
 
+def decChain (R : Nat → Nat → Prop) [∀ a b, Decidable (R a b)] :
+    (l : List Nat) → Decidable (Chain R l)
+  | [] => .isTrue (by simp [Chain])
+  | [_] => .isTrue (by simp [Chain])
+  | a :: b :: rest =>
+    have := decChain R (b :: rest)
+    decidable_of_iff (R a b ∧ Chain R (b :: rest)) (by simp [Chain])
+
+instance (R : Nat → Nat → Prop) [∀ a b, Decidable (R a b)] (l : List Nat) :
+    Decidable (Chain R l) := decChain R l
+
 /-- `p` is a simple path from `a` to `b` in the graph of `t` -/
 def IsSimplePath (t : RTree) (p : List Nat) (a b : Nat) : Prop :=
   p.head? = some a ∧ p.getLast? = some b ∧ (∀ x ∈ p, x ∈ ids t) ∧
     Chain (Adj t) p ∧ p.Nodup
+
+instance (t : RTree) (p : List Nat) (a b : Nat) : Decidable (IsSimplePath t p a b) := by
+  unfold IsSimplePath; infer_instance
+
+/-- `y` has no child -/
+def isLeaf (t : RTree) (y : Nat) : Bool := (edges t).all (fun e => e.1 != y)
 
 /-- number of neighbours -/
 def degree (t : RTree) (x : Nat) : Nat :=
@@ -367,6 +386,9 @@ def pathDownL (a : Nat) : List RTree → Option (List Nat)
     | some p => some p
     | none => pathDownL a ts
 end
+
+/-- `x` lies on the way from the root to `y`: `y` is `x` or a descendant of `x` -/
+def IsBelow (t : RTree) (x y : Nat) : Prop := ∃ p, pathDown y t = some p ∧ x ∈ p
 
 /-- `find_path_to_root` -/
 def rootPath (t : RTree) (a : Nat) : Option (List Nat) := (pathDown a t).map List.reverse
